@@ -208,12 +208,13 @@ class WSGIContainer:
         .. versionchanged:: 6.3
            No longer a static method.
         """
-        hostport = request.host.split(":")
-        if len(hostport) == 2:
-            host = hostport[0]
-            port = int(hostport[1])
+        host, sep, port_str = request.host.rpartition(":")
+        if sep and port_str.isdigit():
+            port = int(port_str)
         else:
-            host = request.host
+            if not (sep and port_str == ""):
+                # No port at all (e.g. a bare "[::1]"); "name:" has an empty port.
+                host = request.host
             port = 443 if request.protocol == "https" else 80
         environ = {
             "REQUEST_METHOD": request.method,
